@@ -381,6 +381,41 @@ def _part_b(tier):
                     res.violations.append(Violation('config: placeholder in a task import string is not honoured', f'{field}: {spec} with PKG={w.modname}: chain tasks {names}, expected {want}', case))
             except Exception as e:  # noqa
                 res.violations.append(Violation('config: placeholder in a task import string is not honoured', f'{field}: {spec}: {type(e).__name__}: {e}', case))
+        # one config FILE loaded twice in the process with different global_vars: each load substitutes its own values at every depth
+        import json as _json
+        fdir = Path(root) / 'cfg6'
+        fdir.mkdir(exist_ok=True)
+        (fdir / 'merge.json').write_text(_json.dumps({'tasks': [f'{w.modname}.A'], 's': '{DIR}/s', 'nested': ['{DIR}/a', {'k': ['{DIR}/b']}]}))
+        (fdir / 'multi.yaml').write_text(_json.dumps({'configs': {'p1': {'main_part': True, 'tasks': [f'{w.modname}.A'], 's': '{DIR}/s', 'nested': [{'k': '{DIR}/b'}]}}}))
+        for fname in ('merge.json', 'multi.yaml'):
+            for gv_dir in ('/mnt/old', '/mnt/new', '/mnt/old'):
+                res.add('evaluations')
+                case = {'kind': 'file-twice', 'file': fname, 'dir': gv_dir}
+                try:
+                    t = Chain(Config(Path(root) / 'data6', fdir / fname, global_vars={'DIR': gv_dir, 'N': 1}))['a']
+                    got = [str(t.params['s']), worlds.jsonable(t.params['nested'])]
+                    want = [f'{gv_dir}/s', [f'{gv_dir}/a', {'k': [f'{gv_dir}/b']}] if fname == 'merge.json' else [{'k': f'{gv_dir}/b'}]]
+                    if got != want:
+                        res.violations.append(Violation('config: a file loaded again with other global_vars keeps values of an earlier load', f'{fname} with DIR={gv_dir}: {got}, expected {want}', case))
+                except Exception as e:  # noqa
+                    res.violations.append(Violation('config: a file loaded again with other global_vars keeps values of an earlier load', f'{fname}: {type(e).__name__}: {e}', case))
+        # a Config OBJECT (built with its own global_vars, i.e. prepared once already) listed in `uses` of a config with a context:
+        # the context values it receives on the second preparation are substituted too
+        for gv in ({'DIR': '/d', 'N': 1}, types.SimpleNamespace(DIR='/d', N=1)):
+            res.add('evaluations')
+            res.add('distinct_nontrivial')
+            case = {'kind': 'used-config-object', 'gv': type(gv).__name__}
+            try:
+                inner = Config(Path(root) / 'data5', name='inner', namespace='rd', data={'tasks': [f'{w.modname}.A'], 's': 'own-{N}', 'nested': ['{DIR}/own']}, global_vars=gv)
+                top = Config(Path(root) / 'data5', name='top_obj', data={'uses': [inner]}, global_vars=gv,
+                             context={'for_namespaces': {'rd': {'s': '{DIR}/{UNKNOWN}/ctx', 'nested': ['{DIR}/n', {'k': 'v-{N}'}]}}})
+                t = Chain(top)['rd::a']
+                got = [str(t.params['s']), worlds.jsonable(t.params['nested'])]
+                want = ['/d/{UNKNOWN}/ctx', ['/d/n', {'k': 'v-1'}]]
+                if got != want:
+                    res.violations.append(Violation('context: values reaching a used Config object are not substituted', f'{got} expected {want}', case))
+            except Exception as e:  # noqa
+                res.violations.append(Violation('context: values reaching a used Config object are not substituted', f'{type(e).__name__}: {e}', case))
         # one caller-owned context (nested containers with placeholders under for_namespaces) used for two chains with different global_vars
         ctx = {'for_namespaces': {'n': {'nested': ['{DIR}/a', {'k': ['{DIR}/b']}], 's': '{DIR}/s'}}}
         snap = copy.deepcopy(ctx)
